@@ -35,8 +35,8 @@ pub struct Case {
     minimal_map: bool,
 }
 
-const IDS: [&str; 5] = ["acme/one", "two", "acme/deep/three.x", "four-4", "a"];
-const PATHS: [&str; 5] = ["/packaged/x86/acme_one", "/p/two", "/packaged/x86/release/acme_deep_three.x", "/out/four-4", "/a"];
+const IDS: [&str; 7] = ["acme/one", "two", "acme/deep/three.x", "four-4", "a", "acme/One", "A"];
+const PATHS: [&str; 7] = ["/packaged/x86/acme_one", "/p/two", "/packaged/x86/release/acme_deep_three.x", "/out/four-4", "/a", "/packaged/x86/acme_One", "/A"];
 
 fn seg_strategy() -> impl Strategy<Value = String> {
     prop_oneof![
@@ -291,14 +291,14 @@ fn check(ctx: &Ctx, env: &Env, c: &Case) -> Check {
 }
 
 pub fn run(ctx: &Ctx) {
-    ctx.set_rule("package.toml files with 0..8 dependencies mixing libcnb:<id>, relative paths from segments {name, ., .., ...} with redundant/trailing separators (also empty, climbing above the root), absolute paths (also with ..), docker/https/http/urn/file URIs with query+fragment, in any order and multiplicity; buildpack uri '.', './sub/dir' or '../sibling'; platform omitted/linux/windows; id->path map complete or missing exactly one referenced id; source directory at 0..3 generated URI-safe path segments below the scratch root, handed over normalised or spelled with a `..` component; driven through package_composite_buildpack, output decoded by Python tomllib. Oracle: same count and order, position-wise expected string (map[id] / own lexical normalisation / verbatim), uri+platform preserved, re-parses; missing id => Err. Non-trivial: >=3 dependencies of >=3 kinds with a relative path containing '..'; distinct = hash of the case.");
+    ctx.set_rule("package.toml files with 0..8 dependencies mixing libcnb:<id> (7 ids incl. pairs that differ only in letter case), relative paths from segments {name, ., .., ...} with redundant/trailing separators (also empty, climbing above the root), absolute paths (also with ..), docker/https/http/urn/file URIs with query+fragment, in any order and multiplicity; buildpack uri '.', './sub/dir' or '../sibling'; platform omitted/linux/windows; id->path map complete or missing exactly one referenced id; source directory at 0..3 generated URI-safe path segments below the scratch root, handed over normalised or spelled with a `..` component; driven through package_composite_buildpack, output decoded by Python tomllib. Oracle: same count and order, position-wise expected string (map[id] / own lexical normalisation / verbatim), uri+platform preserved, re-parses; missing id => Err. Non-trivial: >=3 dependencies of >=3 kinds with a relative path containing '..'; distinct = hash of the case.");
     ctx.assume("URI spellings are canonical (lower-case scheme/host, unreserved path characters) so that 'verbatim' is checked on strings the URI library does not re-spell");
     let env = Env { scratch: Scratch::new("c14"), reader: RefCell::new(TomlReader::new()) };
     for (_p, v) in ctx.regress_files() {
         let c = case_from_json(&v["case"]);
         ctx.check_case("regress", check(ctx, &env, &c), || v["case"].clone());
     }
-    ctx.run_prop("descriptors", case_strategy(), ctx.tier.pick(2500, 60000), case_json, |c| check(ctx, &env, c));
+    ctx.run_prop("descriptors", case_strategy(), ctx.tier.pick(8000, 60000), case_json, |c| check(ctx, &env, c));
 }
 
 pub fn replay(ctx: &Ctx, _sub: &str, case: &Value) {
